@@ -6,7 +6,9 @@
 #include "simrt.hpp"
 
 #include <cerrno>
+#include <poll.h>
 #include <sys/mman.h>
+#include <sys/stat.h>
 
 extern "C" {
 extern struct randombytes_implementation randombytes_internal_implementation;
@@ -43,7 +45,13 @@ struct Env {
     // what sodium_init did at the environment boundary (summed over all threads)
     uint64_t init_pagesize_queries = 0, init_entropy_calls = 0, init_entropy_bytes = 0, init_stirs = 0, init_src_bytes = 0;
     uint64_t total_entropy_calls = 0;
+    // the same counters at the moment the FIRST sodium_init() call returned: in the sequential reference that is the
+    // work of exactly one initialisation
+    bool first_done = false;
+    uint64_t first[5] = {0, 0, 0, 0, 0};
+    void snapshot_first() { if (first_done) return; first_done = true; first[0] = init_pagesize_queries; first[1] = init_entropy_calls; first[2] = init_entropy_bytes; first[3] = init_stirs; first[4] = init_src_bytes; }
     void reset(uint64_t seed) {
+        first_done = false; memset(first, 0, sizeof first);
         entropy_seed = seed;
         memset(ent_off, 0, sizeof ent_off); memset(tod, 0, sizeof tod); memset(in_init, 0, sizeof in_init);
         init_pagesize_queries = init_entropy_calls = init_entropy_bytes = init_stirs = init_src_bytes = total_entropy_calls = 0;
@@ -70,8 +78,21 @@ bool env_fault(unsigned salt) {
     uint64_t k = g_env_calls[s]++;
     return mix64(mix64(0xfa017 + salt, (uint64_t) s), k) % 100 < g_env_fault_pct;
 }
+// kernel knob: a kernel without getrandom()/getentropy(): the generators fall back to reading /dev/urandom through a
+// descriptor they keep open.  The descriptor table is process-wide kernel state: every use of a descriptor number is
+// reported to the race detector as a read of a pseudo location, every open()/close() as a write.
+bool g_no_getrandom = false;
+const int FD_BASE = 1000, FD_MAX = 32;
+struct SimFd { bool open = false; char dev = 0; } g_fds[FD_MAX];
+uint64_t g_fd_cells[FD_MAX];
+uint64_t g_dev_reads = 0, g_dev_opens = 0;
+void fd_access(int fd, bool write) {
+    if (fd < FD_BASE || fd >= FD_BASE + FD_MAX) return;
+    simrt::on_access((uintptr_t) &g_fd_cells[fd - FD_BASE], 8, write, (uintptr_t) __builtin_return_address(0));
+}
 ssize_t h_getrandom(void *buf, size_t n, unsigned) {
     simrt::yield_point(simrt::Y_SYSCALL, 10);
+    if (g_no_getrandom) { errno = ENOSYS; return -1; }
     if (env_fault(1)) { g_eintr_fired++; errno = (g_eintr_fired & 1) ? EINTR : EAGAIN; return -1; }
     ENV.serve(buf, n);
     simrt::on_access((uintptr_t) buf, n, true, (uintptr_t) __builtin_return_address(0)); // the kernel writes the caller's buffer
@@ -79,6 +100,7 @@ ssize_t h_getrandom(void *buf, size_t n, unsigned) {
 }
 int h_getentropy(void *buf, size_t n) {
     simrt::yield_point(simrt::Y_SYSCALL, 11);
+    if (g_no_getrandom) { errno = ENOSYS; return -1; }
     ENV.serve(buf, n);
     simrt::on_access((uintptr_t) buf, n, true, (uintptr_t) __builtin_return_address(0));
     return 0;
@@ -100,7 +122,44 @@ long h_sysconf(int name) {
     }
     return simos_real_sysconf(name);
 }
-int h_open(const char *, int, mode_t) { errno = ENOENT; return -1; }
+int h_open(const char *path, int, mode_t) {
+    bool ur = !strcmp(path, "/dev/urandom"), rd = !strcmp(path, "/dev/random");
+    if (!g_no_getrandom || (!ur && !rd)) { errno = ENOENT; return -1; }
+    simrt::yield_point(simrt::Y_SYSCALL, 14);
+    for (int i = 0; i < FD_MAX; i++) if (!g_fds[i].open) { // lowest free number, like the kernel
+        fd_access(FD_BASE + i, true);
+        g_fds[i].open = true; g_fds[i].dev = ur ? 'u' : 'r'; g_dev_opens++;
+        return FD_BASE + i;
+    }
+    errno = EMFILE; return -1;
+}
+ssize_t h_read(int fd, void *buf, size_t n) {
+    if (fd < FD_BASE || fd >= FD_BASE + FD_MAX) { errno = EBADF; return -1; }
+    simrt::yield_point(simrt::Y_SYSCALL, 15);
+    fd_access(fd, false);
+    if (!g_fds[fd - FD_BASE].open) { errno = EBADF; return -1; }
+    if (env_fault(3)) { g_eintr_fired++; errno = (g_eintr_fired & 1) ? EINTR : EAGAIN; return -1; }
+    ENV.serve(buf, n);
+    g_dev_reads++;
+    simrt::on_access((uintptr_t) buf, n, true, (uintptr_t) __builtin_return_address(0));
+    return (ssize_t) n;
+}
+int h_close(int fd) {
+    if (fd < FD_BASE || fd >= FD_BASE + FD_MAX) { errno = EBADF; return -1; }
+    simrt::yield_point(simrt::Y_SYSCALL, 16);
+    fd_access(fd, true);
+    if (!g_fds[fd - FD_BASE].open) { errno = EBADF; return -1; }
+    g_fds[fd - FD_BASE].open = false;
+    return 0;
+}
+int h_fstat(int fd, struct stat *st) {
+    if (fd < FD_BASE || fd >= FD_BASE + FD_MAX || !g_fds[fd - FD_BASE].open) { errno = EBADF; return -1; }
+    fd_access(fd, false);
+    memset(st, 0, sizeof *st); st->st_mode = S_IFCHR | 0666;
+    return 0;
+}
+int h_fcntl(int fd, int, long) { fd_access(fd, false); return 0; }
+int h_poll(struct pollfd *pf, nfds_t n, int) { for (nfds_t i = 0; i < n; i++) { fd_access(pf[i].fd, false); pf[i].revents = POLLIN; } return (int) n; }
 
 // library allocations become tracked blocks
 void *h_malloc(size_t n) {
@@ -510,9 +569,15 @@ OP(ristretto_hash) {
     c.emit(p, 32); c.emit(q, 32); c.emit(a);
 }
 OP(h2c) {
-    size_t n = c.in.below(60); unsigned char *m = c.input(n), *p = c.buf(32), *q = c.buf(32); int a, b;
-    { LibScope l; a = crypto_core_ed25519_from_string(p, "verif-ctx", m, n, 1); b = crypto_core_ristretto255_from_string(q, "verif-ctx", m, n, 2); }
-    c.emit(p, 32); c.emit(q, 32); c.emit(a * 2 + b);
+    // domain-separation tags of every length class: absent, short, at and beyond the 255-byte limit (hashed first)
+    static const size_t CTXLEN[] = {9, 0, 254, 255, 256, 300, 9, 700};
+    size_t n = c.in.below(60), cl = CTXLEN[c.in.below(8)]; unsigned char *m = c.input(n), *p = c.buf(32), *q = c.buf(32), *p2 = c.buf(32), *q2 = c.buf(32); int a, b, a2, b2;
+    char *ctx = (char *) c.input(cl + 1);
+    for (size_t i = 0; i < cl; i++) if (!ctx[i]) ctx[i] = 'x';
+    ctx[cl] = 0;
+    { LibScope l; a = crypto_core_ed25519_from_string(p, cl == 9 ? "verif-ctx" : ctx, m, n, 1); b = crypto_core_ristretto255_from_string(q, ctx, m, n, 2);
+      a2 = crypto_core_ed25519_from_string_ro(p2, ctx, m, n, 2); b2 = crypto_core_ristretto255_from_string_ro(q2, cl ? ctx : nullptr, m, n, 1); }
+    c.emit(p, 32); c.emit(q, 32); c.emit(p2, 32); c.emit(q2, 32); c.emit(a * 2 + b + a2 * 4 + b2 * 8);
 }
 OP(pwhash_str_argon2i) {
     char *s = (char *) c.buf(crypto_pwhash_STRBYTES); const char *pw = "pw-argon2i"; int r, v;
@@ -673,7 +738,9 @@ static void verif_misuse_handler(void) {}
 OP(misuse_handler) { int r; { LibScope l; r = sodium_set_misuse_handler(verif_misuse_handler); } c.emit(r); }
 OP(rng_stir_close) {
     unsigned char *b = c.buf(24); int r;
-    { LibScope l; randombytes_stir(); randombytes_buf(b, 12); r = randombytes_close(); randombytes_buf(b + 12, 12); }
+    // (on a kernel without getrandom() the source keeps a shared descriptor and close() releases it: a teardown call that,
+    // like freeing a buffer in use, is not made concurrently with users of the source -- only stir is exercised there)
+    { LibScope l; randombytes_stir(); randombytes_buf(b, 12); r = g_no_getrandom ? 0 : randombytes_close(); randombytes_buf(b + 12, 12); }
     c.emit(b, 24); c.emit(r);
 }
 
@@ -715,6 +782,7 @@ struct PlanT {
     bool inline_main = false;  // thread 0 is the main thread; the others come into existence when first scheduled
     bool shared_arena = false;  // all threads' caller buffers packed into one tracked block
     unsigned env_fault_pct = 0; // getrandom EINTR/EAGAIN, mlock ENOMEM (per-thread deterministic)
+    bool no_getrandom = false;  // kernel without getrandom()/getentropy(): the random sources read a simulated /dev/urandom
     bool sysconf_fails = false; // environment fault: sysconf(_SC_PAGESIZE) fails inside sodium_init (the library falls back to its default)
     std::vector<std::pair<uint64_t, int>> sched; // strategy "explicit": deviations (decision index, thread) from run-to-completion order
     std::vector<Op> ops;
@@ -725,6 +793,7 @@ struct Outcome {
     std::vector<int> init_ret;                 // per thread (-99 = not called)
     std::vector<std::vector<uint64_t>> results; // per thread, per op
     uint64_t pagesize_queries = 0, init_entropy_calls = 0, init_entropy_bytes = 0, init_stirs = 0, init_src_bytes = 0;
+    uint64_t first[5] = {0, 0, 0, 0, 0}; // the same five at the return of the first sodium_init() call
     int winner = -1;
     Json to_json() const {
         Json j = Json::object();
@@ -733,6 +802,7 @@ struct Outcome {
         for (auto &t : results) { Json a = Json::array(); for (uint64_t v : t) a.push(hex64(v)); rs.push(a); }
         j["results"] = rs;
         j["pq"] = pagesize_queries; j["ic"] = init_entropy_calls; j["ib"] = init_entropy_bytes; j["is"] = init_stirs; j["isb"] = init_src_bytes; j["winner"] = winner;
+        Json f = Json::array(); for (int i = 0; i < 5; i++) f.push(first[i]); j["first"] = f;
         return j;
     }
     static Outcome from_json(const Json &j) {
@@ -740,6 +810,7 @@ struct Outcome {
         for (auto &v : j.at("init_ret").a) o.init_ret.push_back((int) v.i64());
         for (auto &t : j.at("results").a) { std::vector<uint64_t> r; for (auto &v : t.a) r.push_back(strtoull(v.str().c_str(), nullptr, 16)); o.results.push_back(r); }
         o.pagesize_queries = j.at("pq").u64(); o.init_entropy_calls = j.at("ic").u64(); o.init_entropy_bytes = j.at("ib").u64(); o.init_stirs = j.at("is").u64(); o.init_src_bytes = j.at("isb").u64();
+        for (size_t i = 0; i < 5 && i < j.at("first").a.size(); i++) o.first[i] = j.at("first").a[i].u64();
         o.winner = (int) j.at("winner").i64(-1);
         return o;
     }
@@ -756,6 +827,7 @@ void thread_body(int tid) {
         int r;
         { LibScope l; r = sodium_init(); }
         ENV.in_init[tid] = false;
+        ENV.snapshot_first();
         g_out->init_ret[(size_t) tid] = r;
         simrt::yield_point(simrt::Y_OPBOUNDARY, 0);
     }
@@ -772,7 +844,7 @@ void thread_body(int tid) {
 
 void install_hooks() {
     simos_hooks.getrandom_ = h_getrandom; simos_hooks.getentropy_ = h_getentropy; simos_hooks.gettimeofday_ = h_gettimeofday; simos_hooks.getpid_ = h_getpid;
-    simos_hooks.sysconf_ = h_sysconf; simos_hooks.open_ = h_open;
+    simos_hooks.sysconf_ = h_sysconf; simos_hooks.open_ = h_open; simos_hooks.read_ = h_read; simos_hooks.close_ = h_close; simos_hooks.fstat_ = h_fstat; simos_hooks.fcntl_ = h_fcntl; simos_hooks.poll_ = h_poll;
     simos_hooks.malloc_ = h_malloc; simos_hooks.calloc_ = h_calloc; simos_hooks.free_ = h_free; simos_hooks.posix_memalign_ = h_posix_memalign;
     simos_hooks.mmap_ = h_mmap; simos_hooks.munmap_ = h_munmap; simos_hooks.mprotect_ = h_mprotect; simos_hooks.mlock_ = h_mlock; simos_hooks.munlock_ = h_munlock; simos_hooks.madvise_ = h_madvise;
     simos_hooks.raise_ = h_raise; simos_hooks.abort_ = h_abort; simos_hooks.assert_fail_ = h_assert_fail;
@@ -793,6 +865,7 @@ Outcome run_plan(const PlanT &p, int strategy, const std::vector<int> &seq_order
     g_sysconf_fails = p.sysconf_fails; g_sysconf_failed = 0;
     g_rl_memlock.rlim_cur = 65536; g_rl_memlock.rlim_max = RLIM_INFINITY;
     g_env_fault_pct = p.env_fault_pct; memset(g_env_calls, 0, sizeof g_env_calls); g_eintr_fired = g_mlock_refused = 0;
+    g_no_getrandom = p.no_getrandom; for (auto &f : g_fds) f = SimFd(); g_dev_reads = g_dev_opens = 0;
     g_script_seed = mix64(p.content_seed, 0x5c21); memset(g_script_off, 0, sizeof g_script_off);
     if (p.rng == R_INTERNAL) randombytes_set_implementation(&randombytes_internal_implementation);
     else if (p.rng == R_SCRIPTED) randombytes_set_implementation(&g_scripted_mt);
@@ -834,6 +907,7 @@ Outcome run_plan(const PlanT &p, int strategy, const std::vector<int> &seq_order
     simrt::run_threads(p.nthreads, thread_body);
     out.pagesize_queries = ENV.init_pagesize_queries; out.init_entropy_calls = ENV.init_entropy_calls; out.init_entropy_bytes = ENV.init_entropy_bytes;
     out.init_stirs = ENV.init_stirs; out.init_src_bytes = ENV.init_src_bytes;
+    memcpy(out.first, ENV.first, sizeof out.first);
     for (int i = 0; i < p.nthreads; i++) if (out.init_ret[(size_t) i] == 0 && out.winner < 0) out.winner = i;
     return out;
 }
@@ -883,6 +957,7 @@ struct C19 {
         p.preinit = k.chance(1, 5);
         p.inline_main = !p.preinit && k.chance(1, 2);
         p.sysconf_fails = k.chance(1, 8);
+        p.no_getrandom = k.chance(1, 4);
         p.shared_arena = k.chance(1, 2);
         p.env_fault_pct = k.chance(1, 2) ? 0 : (unsigned) k.range(5, 40);
         size_t per_thread_max = p.nthreads > 8 ? 3 : p.nthreads > 4 ? 6 : (thorough ? 12 : 8);
@@ -910,6 +985,7 @@ struct C19 {
         Json j = Json::object();
         j["knobs"] = p.pk; j["content_seed"] = p.content_seed; j["sched_seed"] = p.sched_seed; j["threads"] = p.nthreads;
         j["strategy"] = simrt::strategy_name[p.strategy]; j["pct_depth"] = p.pct_depth; j["rng"] = rng_name[p.rng]; j["preinit"] = p.preinit; j["inline_main"] = p.inline_main; j["sysconf_fails"] = p.sysconf_fails; j["env_fault_pct"] = p.env_fault_pct; j["shared_arena"] = p.shared_arena;
+        j["kernel"] = p.no_getrandom ? "no_getrandom_dev_urandom" : "getrandom";
         if (p.strategy == simrt::S_TRACE) {
             Json sc = Json::array();
             for (auto &d : p.sched) { Json e = Json::array(); e.push(d.first); e.push(d.second); sc.push(e); }
@@ -929,6 +1005,7 @@ struct C19 {
         p.pct_depth = (unsigned) j.at("pct_depth").u64(2);
         for (int i = 0; i < 3; i++) if (j.at("rng").str() == rng_name[i]) p.rng = i;
         p.preinit = j.at("preinit").boolean(); p.inline_main = j.at("inline_main").boolean(); p.sysconf_fails = j.at("sysconf_fails").boolean(); p.env_fault_pct = (unsigned) j.at("env_fault_pct").u64(); p.shared_arena = j.at("shared_arena").boolean();
+        p.no_getrandom = j.at("kernel").str() == "no_getrandom_dev_urandom";
         for (auto &d : j.at("schedule_deviations").a) if (d.a.size() == 2) p.sched.push_back({d.a[0].u64(), (int) d.a[1].i64()});
         for (auto &q : j.at("ops").a) {
             Op o; o.thread = (int) q.at("t").i64();
@@ -994,6 +1071,8 @@ struct C19 {
         res.count(std::string("knob.shared_arena=") + (p.shared_arena ? "yes" : "no"));
         if (g_sysconf_failed) res.count("fault.sysconf_pagesize_failed", g_sysconf_failed);
         if (g_eintr_fired) res.count("fault.getrandom_eintr_eagain", g_eintr_fired);
+        res.count(std::string("knob.kernel=") + (p.no_getrandom ? "no_getrandom" : "getrandom"));
+        if (g_dev_reads) res.count("fault.getrandom_enosys_device_reads", g_dev_reads);
         if (g_mlock_refused) res.count("fault.mlock_refused", g_mlock_refused);
         if (RT.lazily_created) res.count("probe.threads_created_when_first_scheduled", RT.lazily_created);
         if (RT.created_inside_marked) res.count("fault.thread_created_while_creator_inside_sodium_init", RT.created_inside_marked);
@@ -1038,6 +1117,15 @@ struct C19 {
         if (!rj.at("fatal").str().empty()) {
             res.fail("reference-failed", rj.at("fatal_locus").str(), "sequential reference: " + rj.at("fatal_detail").str(), 0);
             return res;
+        }
+        {
+            // N racing calls must do the work of ONE call: what the reference saw by the time its first call returned
+            const uint64_t g5[5] = {got.pagesize_queries, got.init_entropy_calls, got.init_entropy_bytes, got.init_stirs, got.init_src_bytes};
+            static const char *nm5[5] = {"page-size queries", "entropy requests", "entropy bytes", "stirs of the installed source", "bytes drawn from the installed source"};
+            for (int q = 0; q < 5 && !p.preinit; q++) if (g5[q] != ref.first[q]) {
+                res.fail("init-not-exactly-once", "more-than-one-call", std::string("all sodium_init() calls of the run together made ") + std::to_string(g5[q]) + " " + nm5[q] + "; a single sodium_init() call (sequential reference, first call) makes " + std::to_string(ref.first[q]), (int) RT.steps);
+                return res;
+            }
         }
         if (got.pagesize_queries != ref.pagesize_queries || got.init_entropy_calls != ref.init_entropy_calls || got.init_entropy_bytes != ref.init_entropy_bytes ||
             got.init_stirs != ref.init_stirs || got.init_src_bytes != ref.init_src_bytes) {
@@ -1131,6 +1219,7 @@ struct C19 {
         if (p.rng != R_DEFAULT) { Plan c = p; c.rng = R_DEFAULT; out.push_back(c); }
         if (p.inline_main) { Plan c = p; c.inline_main = false; out.push_back(c); }
         if (p.sysconf_fails) { Plan c = p; c.sysconf_fails = false; out.push_back(c); }
+        if (p.no_getrandom) { Plan c = p; c.no_getrandom = false; out.push_back(c); }
         if (p.env_fault_pct) { Plan c = p; c.env_fault_pct = 0; out.push_back(c); }
         if (p.shared_arena) { Plan c = p; c.shared_arena = false; out.push_back(c); }
         if (p.strategy != simrt::S_TRACE && p.sched_seed > 3) for (uint64_t s = 1; s <= 3; s++) { Plan c = p; c.sched_seed = s; out.push_back(c); }
